@@ -112,7 +112,9 @@ def classify_report(rep, sites):
         sides.append((accessor, site, acc["kind"]))
     fa = set(sites.get(sides[0][1], []))
     fb = set(sites.get(sides[1][1], []))
-    common = sorted(fa & fb) or sorted(fa | fb)
+    # a tracked field only when both sides are access sites of that same field; anything else
+    # (container contents, memory published through a field, library internals) is "heap"
+    common = sorted(fa & fb)
     field = common[0] if len(common) >= 1 and not deep else "heap"
     a, b = sorted([sides[0][0], sides[1][0]])
     return "race:%s:%s:%s" % (field, a, b), {"sides": sides, "candidate_fields": common}
